@@ -267,6 +267,39 @@ func C10(tier string) int {
 			}
 		}
 	}
+	// long actor lists: 5..9, 12 and 17 distinct actors, exactly one blocked, at every position -> 403; nobody
+	// blocked -> 200
+	for _, n := range []int{5, 6, 7, 8, 9, 12, 17} {
+		for p := -1; p < n; p++ {
+			if n > 9 && p > 0 && p != n-1 && p%4 != 0 {
+				continue
+			}
+			acts := L{}
+			blocked := ""
+			for i := 0; i < n; i++ {
+				id := fmt.Sprintf("https://r1.example/u/p%d", i)
+				if i == p {
+					blocked = id
+				}
+				if i%2 == 1 {
+					acts = append(acts, Emb("Person", id))
+				} else {
+					acts = append(acts, id)
+				}
+			}
+			want := "[200]"
+			if blocked != "" {
+				want = "[403]"
+			}
+			b := blocked
+			fams = append(fams, fam{fmt.Sprintf("inbox-%d-actors-blocked-#%d", n, p),
+				&Scenario{Name: "blocked-among-many", Kind: ap.Both, Entry: "PostInbox", URL: inbox(Alice), Body: Doc("Like", RAct, "actor", acts, "object", Note1), Tweak: func(a *ap.App) {
+					if b != "" {
+						a.BlockedSet[b] = true
+					}
+				}}, want, "blocked-among-many"})
+		}
+	}
 	rn := Emb("Note", "https://r1.example/n/10", "attributedTo", Carol, "content", "x")
 	objTypes := []string{"Create", "Update", "Delete", "Follow", "Add", "Remove", "Like", "Undo", "Block"}
 	absent := []struct {
@@ -537,7 +570,7 @@ func C10(tier string) int {
 	res.Extra["fault_bound_completed"] = bound
 	res.Extra["request_product"] = len(cases)
 	res.Extra["id_and_required_member_cases"] = len(fams)
-	res.Rule = fmt.Sprintf("(1) C07's request product (%d requests); (2) %d inbox/outbox bodies varying 'id' over {absent,null,\"\",number,object,array,relative,absolute-path,absolute IRI} and object/target over {absent,[]} for every type that requires them, multi-valued 'type' members mixing unknown extension types with a known one (400 only if no entry names a known type), every sequence of 1..3 (thorough 4) actors - IRI / embedded Person / Mention named by href only in turn - over three peers of which the application blocks a subset (403 iff one of them is blocked), and activities whose application callback (DefaultCallback for unhandled types, a wrapped or 'other' hook for handled ones) answers with the documented ErrObjectRequired / ErrTargetRequired sentinel; (3) each of %d corpus scenarios (incl. application hooks that log / fail / re-enter, and every POST scenario started from the state an earlier request of the same kind left behind) fault-free and with every choice of <= %d failing seam calls, and every corpus request with one body node removed, emptied or replaced by a value of another legal shape, fault-free and under every single fault; (4) each corpus scenario again through PostInboxScheme / PostOutboxScheme / NewActivityStreamsHandlerScheme in a world whose own IRIs are http://: same outcome, status, Location, body and final state as the default entry point (modulo the scheme), trichotomy under single faults; each corpus scenario again in a world whose local inboxes / outboxes live at query-routed IRIs (…/box?inbox-of=alice): same outcome, served body and final state modulo the renaming; every outbox scenario also with the endpoint scheme and the scheme of the minted ids differing (http / https and https / http): same status, Location = newest outbox entry = stored id; (5) every sequence of 2-3 (thorough 4) read requests over {handler: live value, Tombstone, value with collections, missing, value with hidden recipients, non-ActivityPub; GetInbox; GetOutbox} on ONE application and one handler value, each answered as when served alone; oracle = counting ResponseWriter + return values; distinct = (case class, outcome) or (scenario, choice list)", len(cases), len(fams), len(corpus), bound)
+	res.Rule = fmt.Sprintf("(1) C07's request product (%d requests); (2) %d inbox/outbox bodies varying 'id' over {absent,null,\"\",number,object,array,relative,absolute-path,absolute IRI} and object/target over {absent,[]} for every type that requires them, multi-valued 'type' members mixing unknown extension types with a known one (400 only if no entry names a known type), every sequence of 1..3 (thorough 4) actors - IRI / embedded Person / Mention named by href only in turn - over three peers of which the application blocks a subset (403 iff one of them is blocked), lists of 5..9, 12 and 17 distinct actors with exactly one blocked at every position, and activities whose application callback (DefaultCallback for unhandled types, a wrapped or 'other' hook for handled ones) answers with the documented ErrObjectRequired / ErrTargetRequired sentinel; (3) each of %d corpus scenarios (incl. application hooks that log / fail / re-enter, and every POST scenario started from the state an earlier request of the same kind left behind) fault-free and with every choice of <= %d failing seam calls, and every corpus request with one body node removed, emptied or replaced by a value of another legal shape, fault-free and under every single fault; (4) each corpus scenario again through PostInboxScheme / PostOutboxScheme / NewActivityStreamsHandlerScheme in a world whose own IRIs are http://: same outcome, status, Location, body and final state as the default entry point (modulo the scheme), trichotomy under single faults; each corpus scenario again in a world whose local inboxes / outboxes live at query-routed IRIs (…/box?inbox-of=alice): same outcome, served body and final state modulo the renaming; every outbox scenario also with the endpoint scheme and the scheme of the minted ids differing (http / https and https / http): same status, Location = newest outbox entry = stored id; (5) every sequence of 2-3 (thorough 4) read requests over {handler: live value, Tombstone, value with collections, missing, value with hidden recipients, non-ActivityPub; GetInbox; GetOutbox} on ONE application and one handler value, each answered as when served alone; oracle = counting ResponseWriter + return values; distinct = (case class, outcome) or (scenario, choice list)", len(cases), len(fams), len(corpus), bound)
 	res.Assumptions = []string{"a denying Authenticate* writes its own 401 (counted as the one status of that request)", "ResponseWriter itself never fails",
 		"Announce/Accept/Reject without object are not asserted (neither code nor documentation requires one)"}
 	return res.Finish()
